@@ -10,6 +10,7 @@ mod genm;
 mod props;
 mod rng;
 mod sim;
+mod simlong;
 mod simprops;
 mod stdprobe;
 mod vclock;
@@ -429,6 +430,14 @@ fn main() {
             )
         }
         Some("c13worker") => c13::worker(&args[2..]),
+        Some("c19long") => {
+            let a = &args[2..];
+            simlong::run(
+                arg(a, "--seed").map(|s| s.parse().unwrap()).unwrap_or(1),
+                arg(a, "--n").map(|s| s.parse().unwrap()).unwrap_or(4),
+                &arg(a, "--out").expect("--out"),
+            )
+        }
         Some("c01std") => {
             let a = &args[2..];
             stdprobe::run(
